@@ -214,7 +214,10 @@ def _is_instance(obj: Any, type_: Any, type_vars: Dict[TypeVar_, Any], context: 
         return _is_instance(obj=obj, type_=resolved, type_vars=type_vars, context=context)
 
     if _is_type_new_type(type_):
-        return isinstance(obj, type_.__supertype__)
+        if isinstance(type_.__supertype__, type):
+            return isinstance(obj, type_.__supertype__)
+
+        return _is_instance(obj=obj, type_=type_.__supertype__, type_vars=type_vars, context=context)  # NewType of a NewType or of a generic
 
     if hasattr(obj, '_asdict'):
         if hasattr(type_, '_field_types'):
